@@ -81,9 +81,24 @@ func (h *indexedHeap) removeInternal(realIdx int) (string, uint) {
 	return x.key, x.bytes
 }
 
-// Remove entry by index
-func (h *indexedHeap) remove(idx int) (string, uint) {
-	return h.removeInternal(h.indices[idx])
+// Remove the entry tracked by index idx, provided it still belongs to key.
+// Nothing is removed (and false is returned) when idx was never handed out,
+// is currently unused, or has been reused for an entry of another key, e.g.
+// because the item carrying idx comes from an external storage that knows
+// nothing about this heap.
+func (h *indexedHeap) remove(idx int, key string) (uint, bool) {
+	if idx < 0 || idx >= len(h.indices) {
+		return 0, false
+	}
+	realIdx := h.indices[idx]
+	if realIdx < 0 || realIdx >= len(h.entries) {
+		return 0, false
+	}
+	if h.entries[realIdx].idx != idx || h.entries[realIdx].key != key {
+		return 0, false
+	}
+	_, size := h.removeInternal(realIdx)
+	return size, true
 }
 
 // Remove entry with lowest expiration time
